@@ -10,7 +10,7 @@ SPECDIR = os.path.join(common.SPEC, "sets")
 
 
 def run(rep, pid, tier):
-    work = common.workdir(pid)
+    work = common.workdir(pid + "sets")
     exe = common.build_harness("sets_driver")["sets_driver"]
     cfg = "SampleSets.cfg" if tier == "quick" else "SampleSets_big.cfg"
     dotfile = os.path.join(work, "sets.dot")
